@@ -2,8 +2,7 @@
    /repo/syntax/parser.go (scanCharSet) + tree.go (nodeWithCaseConversion, reduceSet).
    No proofs in this file.  Line numbers refer to /repo/syntax/charclass.go unless said otherwise.
 
-   The model follows the working tree of /repo WITH the C16 patches applied
-   (docs/patches/C16-charclass.patch):
+   The model follows /repo WITH the four C16 fixes (commits 027bb80, d71b246, d434c54, 376a621):
      - charInCategories: a negated category containing the rune no longer ends the loop;
      - addCaseEquivalences descends into the subtracted set;
      - scanCharSet keeps the set marked negated while members are added (canonicalize's negated
